@@ -103,7 +103,7 @@ func (b *progBuilder) step(allowed []int) []int {
 	rank := len(v.Shape)
 	switch b.r.Intn(18) {
 	case 0:
-		b.add(ref.Instr{Op: "scale", In: []int{x}, F: []float64{-1.3, 0.5, 0.9, 1.2, -0.7}[b.r.Intn(5)]})
+		b.add(ref.Instr{Op: "scale", In: []int{x}, F: []float64{-1.3, 0.5, 0.9, 1.2, -0.7, 1, 1, -1, 0}[b.r.Intn(9)]})
 	case 1:
 		b.add(ref.Instr{Op: []string{"sin", "cos", "tanh"}[b.r.Intn(3)], In: []int{x}})
 	case 2:
